@@ -400,6 +400,9 @@ def run(case, ctx):
                 if observe(rec) != before:
                     raise Violation("construct/modified-other-record", "%s changed an existing record" % where)
                 rec = res.value
+                for (t, n), v in zip(fields, vals):
+                    if v is None:
+                        unset_check(t, n, getattr(rec, n), where)
         elif kind == "replace":
             _, pairs = op
             kw = {slots[i][1]: build_candidate(c[1]) for i, c in pairs}
@@ -416,6 +419,9 @@ def run(case, ctx):
                         raise Violation("replace/changed-unnamed-field", "%s: field %s changed though not named" % (where, n),
                                         detail=t)
                 rec = new
+                for n, v in kw.items():
+                    if v is None:
+                        unset_check(dict((x, t_) for t_, x in slots)[n], n, getattr(rec, n), where)
         elif kind == "digest-set":
             _, i, comp, (ccls, val) = op
             t, n = slots[i]
@@ -452,6 +458,19 @@ def _d_(a, b):
     return (diff(a, b), "")
 
 
+def unset_check(t, n, v, where):
+    """A field given no value is unset: None, or the type's EMPTY default - whatever other records went through."""
+    if t.endswith("[]"):
+        ok = v is None or len(v) == 0
+    elif t == "digest":
+        ok = v is None or (v.md5 is None and v.sha1 is None and v.sha256 is None)
+    else:
+        return  # scalars: None is the unset form (and _generated=None means "stamp now"); nothing to add here
+    if not ok:
+        raise Violation("unset-field-holds-a-value", "%s: field %s (%s) was given no value but holds %r" % (where, n, t, v),
+                        detail=t)
+
+
 def outcome_check(ccls, res, opname, t, cand, where):
     if ccls == "valid" and not res.ok:
         raise Violation("%s/valid-rejected" % opname, "%s: valid candidate %r for %s raised %r" % (where, cand, t, res),
@@ -461,7 +480,55 @@ def outcome_check(ccls, res, opname, t, cand, where):
                         "%s: candidate %r cannot be represented by %s but was accepted" % (where, cand, t), detail=t)
 
 
+def default_cases(tier):
+    ts = ["digest"] + [t for t in TYPES if t.endswith("[]")]
+    return [{"type": t, "how": h, "keyword_field": kw} for t in ts for h in ("omitted", "none", "replace-none", "positional-none")
+            for kw in (False, True)]
+
+
+def check_defaults(case, ctx):
+    """The empty default of a list / digest field belongs to ONE record: filling it in place on one record leaves
+    the next record that is given no value with an empty field."""
+    from flow.record import RecordDescriptor
+
+    t, how = case["type"], case["how"]
+    ctx.nontriv()
+    ctx.cls("default-of:" + t, "second-record:" + how)
+    # (a Python-keyword field name switches the generated constructor to its other template)
+    fields = [(t, "f"), ("string", "s")] + ([("string", "class")] if case["keyword_field"] else [])
+    desc = RecordDescriptor("t/defaults", fields)
+    a = desc.recordType(_generated=GENTS) if how != "positional-none" else desc.recordType(None, _generated=GENTS)
+    v = getattr(a, "f")
+    if v is None:
+        ctx.cls("default-is-None")
+        return
+    if t == "digest":
+        v.md5 = "d41d8cd98f00b204e9800998ecf8427e"
+    else:
+        inner = t[:-2]
+        elem = {"string": "x", "wstring": "x", "uri": "http://a/", "path": "/a", "command": "ls -l", "bytes": b"x", "varint": 1,
+                "uint16": 1, "uint32": 1, "float": 1.5, "boolean": True, "filesize": 1, "unix_file_mode": 1,
+                "datetime": GENTS, "net.ipaddress": "1.2.3.4", "net.IPAddress": "1.2.3.4", "net.ipnetwork": "10.0.0.0/8",
+                "net.IPNetwork": "10.0.0.0/8", "net.ipv4.Address": "1.2.3.4", "net.tcp.Port": 1, "net.udp.Port": 1,
+                "digest": ("d41d8cd98f00b204e9800998ecf8427e", None, None), "record": a, "dynamic": "x",
+                "stringlist": ["x"], "dictlist": [{"a": 1}]}.get(inner, "x")
+        r = impl(lambda: v.append(ftype(inner)(elem) if inner != "record" else elem))
+        if not r.ok:
+            ctx.cls("discarded:cannot-append")
+            return
+    if how == "omitted":
+        b = desc.recordType(_generated=GENTS)
+    elif how == "none":
+        b = desc.recordType(f=None, _generated=GENTS)
+    elif how == "positional-none":
+        b = desc.recordType(None, _generated=GENTS)
+    else:
+        b = desc.recordType("placeholder" if False else None, _generated=GENTS)._replace(f=None)
+    unset_check(t, "f", getattr(b, "f"), "second record (%s) after the first one's default was filled in place" % how)
+
+
 def parts(tier):
     return [
+        Part("shared-defaults", check_defaults, cases=default_cases, exhaustive=True),
         Part("histories", run, strategy=case_strategy(30 if tier == "quick" else 50), examples=(500, 5000)),
     ]
